@@ -288,6 +288,107 @@ def check_stored_bound(rep, mod):
                 sample='%s: bound %d' % (n, want))
 
 
+def check_stored_blocks(rep, mod):
+    """the same bound as a function of the input size: a stored block carries at most 65535 bytes (RFC 1951 3.2.4: LEN is 16 bits) behind a 5-byte
+    header, so n input bytes need n + 5 * max(1, ceil(n / 65535)) bytes.  The bound is evaluated by constant propagation at the sizes where the block
+    count steps (k * 65535 - 1, k * 65535, k * 65535 + 1) and at the ends of the 32-bit range."""
+    import constinterp, mirror
+    R = rep.rule('T-STORED-BLOCKS', 'isal_deflate_stateless, raw deflate: for each input size at which the number of stored blocks steps (0, 1, k*65535-1, k*65535, k*65535+1 for k = 1, 2, 3, 257, and the '
+                 'largest sizes whose bound still fits 32 bits) the constant the output space is compared with (constant propagation with avail_in fixed) equals n + 5 * max(1, ceil(n / 65535)): one 5-byte header '
+                 'per started stored block of at most 65535 bytes (RFC 1951 3.2.4)', floor=14, unit='input sizes')
+    f = mod.funcs.get('isal_deflate_stateless')
+    if f is None:
+        raise AnalysisBroken('isal_deflate_stateless not found')
+    P = irrules.prov(mod, f)
+    off = c19.field_offsets('struct isal_zstream', ['gzip_flag', 'avail_in', 'avail_out'])
+    vals, drop = mirror.c_values('default', ['igzip_lib.h'], [('IGZIP_DEFLATE', 'IGZIP_DEFLATE')], 'c10_flag0')
+    if drop:
+        raise AnalysisBroken('IGZIP_DEFLATE not found')
+    MAXB, HDR = 65535, 5
+    sizes = [0, 1]
+    for k in (1, 2, 3, 257):
+        sizes += [k * MAXB - 1, k * MAXB, k * MAXB + 1]
+    top = (1 << 32) - 1
+    kmax = top // (MAXB + HDR)              # the largest whole number of full blocks whose bound fits 32 bits
+    sizes += [kmax * MAXB - 1, kmax * MAXB]
+    for n in sizes:
+        want = n + HDR * max(1, -(-n // MAXB))
+        if want > top:
+            continue
+        R.instance()
+        seen = {}
+
+        def hook(i, n=n):
+            at = P.atoms(i.ops[0])
+            if at == {('param', 0, off['gzip_flag'])}:
+                return vals['IGZIP_DEFLATE']
+            if at == {('param', 0, off['avail_in'])}:
+                return n
+            return None
+
+        def obs(i, env, ip):
+            if i.op == 'icmp' and i.extra['pred'] in ('uge', 'ult', 'ugt', 'ule'):
+                a, b = ip.val(i.ops[0], env), ip.val(i.ops[1], env)
+                if b != constinterp.TOP and a == constinterp.TOP and ('mem', ('param', 0, off['avail_out'])) in P.deps(i.ops[0]):
+                    seen.setdefault(b, i)
+        constinterp.Interp(mod, f, obs, load_hook=hook).run()
+        if not seen:
+            raise AnalysisBroken('isal_deflate_stateless [avail_in = %d]: no comparison of the output space with a constant found' % n)
+        R.check(set(seen) == {want}, mod.where(f, list(seen.values())[0]), 'avail_in = %d: the output space is compared with %s; %d stored block(s) of at most 65535 bytes with a 5-byte header each need %d bytes - with a '
+                'larger bound a buffer that holds the stored form is refused with STATELESS_OVERFLOW, with a smaller one the stored fallback runs out of space' % (n, sorted(seen), max(1, -(-n // MAXB)), want),
+                key='T-STORED-BLOCKS|%d' % n, sample='n = %d: bound %d' % (n, want))
+
+
+def check_stored_blocks_icf(rep, mod):
+    """create_icf_block_hdr (levels 1-3) decides between a compressed and a stored block with the same block-count formula, plus the bytes that the
+    pending bits and the 3-bit stored header occupy ((m_bit_count + 2) / 8)."""
+    import constinterp
+    R = rep.rule('T-STORED-BLOCKS-ICF', 'create_icf_block_hdr: with the block size (block_end - block_next) and the number of pending bits fixed, the constant that the compressed size and the available output are compared '
+                 'with (constant propagation) equals n + 5 * max(1, ceil(n / 65535)) + (bits + 2) / 8, at the sizes where the stored-block count steps and for 0, 5, 6 and 7 pending bits', floor=20, unit='size x pending-bits pairs')
+    f = mod.funcs.get('create_icf_block_hdr')
+    if f is None:
+        raise AnalysisBroken('create_icf_block_hdr not found')
+    P = irrules.prov(mod, f)
+    zs = c19.field_offsets('struct isal_zstream', ['internal_state'])['internal_state']
+    st = c19.field_offsets('struct isal_zstate', ['block_end', 'block_next', 'bitbuf'])
+    mbc = zs + st['bitbuf'] + c19.field_offsets('struct BitBuf2', ['m_bit_count'])['m_bit_count']
+    be, bn = ('mem', ('param', 0, zs + st['block_end'])), ('mem', ('param', 0, zs + st['block_next']))
+    pv = [i for i in f.all_insns() if i.op == 'sub' and P.deps(i.ops[0]) == {be} and P.deps(i.ops[1]) == {bn}]
+    if len(pv) != 1:
+        raise AnalysisBroken('create_icf_block_hdr: expected one block_end - block_next, found %d' % len(pv))
+    MAXB, HDR = 65535, 5
+
+    def run(n, b):
+        seen = {}
+
+        def lh(i):
+            return b if P.atoms(i.ops[0]) == {('param', 0, mbc)} else None
+
+        def obs(i, env, ip):
+            if i.op == 'icmp' and i.extra['pred'] in ('uge', 'ult', 'ugt', 'ule'):
+                a, c = ip.val(i.ops[0], env), ip.val(i.ops[1], env)
+                if (a == constinterp.TOP) != (c == constinterp.TOP):
+                    seen[i.dst] = (c if a == constinterp.TOP else a, i)
+        constinterp.Interp(mod, f, obs, load_hook=lh, value_hook=lambda i: n if i is pv[0] else None).run()
+        return seen
+    base, other = run(0, 0), run(3 * MAXB + 7, 0)
+    sites = sorted(d for d in base if d in other and base[d][0] != other[d][0])     # the comparisons whose constant depends on the block size
+    if not sites:
+        raise AnalysisBroken('create_icf_block_hdr: no comparison with a constant that depends on the block size found')
+    sizes = [0, 1, MAXB - 1, MAXB, MAXB + 1, 2 * MAXB, 2 * MAXB + 1, 257 * MAXB]
+    for n in sizes:
+        for b in (0, 5, 6, 7):
+            R.instance()
+            want = n + HDR * max(1, -(-n // MAXB)) + (b + 2) // 8
+            seen = run(n, b)
+            got = sorted(set(seen[d][0] for d in sites if d in seen))
+            if not got:
+                raise AnalysisBroken('create_icf_block_hdr [n = %d, bits = %d]: the size comparisons were not reached' % (n, b))
+            R.check(got == [want], mod.where(f, seen[[d for d in sites if d in seen][0]][1]), 'block of %d bytes with %d pending bits: the stored size used in the fit test is %s; %d stored block(s) with a 5-byte header each '
+                    'plus the byte(s) taken by the pending bits and the 3-bit header need %d - a larger value stores nothing where a stored block fits and is smaller, a smaller value writes a stored block into '
+                    'less space than it needs' % (n, b, got, max(1, -(-n // MAXB)), want), key='T-STORED-BLOCKS-ICF|%d|%d' % (n, b), sample='n = %d, bits = %d: %d' % (n, b, want))
+
+
 def check_isfull_c(rep, mod):
     """portable encoders: the 64-bit bit buffer is flushed by write_bits() / flush_bits() with an 8-byte store at m_out_buf; set_buf() keeps 8 bytes in
     reserve behind m_out_end, enough for exactly one such store after is_full() said no."""
@@ -526,6 +627,8 @@ def main(tier):
     rep.attempt(check_out_guard, rep)
     rep.attempt(check_isfull_c, rep, mod)
     rep.attempt(check_stored_bound, rep, mod)
+    rep.attempt(check_stored_blocks, rep, mod)
+    rep.attempt(check_stored_blocks_icf, rep, mod)
     import acct
     rep.attempt(acct.check, rep, 'z', 150, c19.field_offsets('struct isal_zstream', ['next_in', 'avail_in', 'total_in', 'next_out', 'avail_out', 'total_out']), c19.field_offsets('struct inflate_state', ['next_in', 'avail_in', 'next_out', 'avail_out', 'total_out']), mod)
     rep.attempt(acct.check_direct_out, rep, mod, c19.field_offsets('struct isal_zstream', ['next_in', 'avail_in', 'total_in', 'next_out', 'avail_out', 'total_out']), 3)
